@@ -24,7 +24,6 @@ import (
 	"os"
 	"runtime/debug"
 	"runtime/metrics"
-	"runtime/pprof"
 	"strings"
 	"sync/atomic"
 	"time"
@@ -364,32 +363,38 @@ func genGraphs(o *hx.Out) []*mgraph {
 func execCases(o *hx.Out) {
 	gs := genGraphs(o)
 	alpha := []byte{'a', 'b', 'c', ' ', '\t', '"', '\\'}
-	maxLen := 6
-	if o.Thorough() {
-		maxLen = 8
-	}
-	// exhaustive up to maxLen-1 on every graph; the longest length on every graph in the thorough tier,
-	// on the first six graphs (the hand-written ones) in the quick tier
+	maxLen := 8
+	// quick: exhaustive up to length 6 on the six hand-written graphs, up to 5 on the generated ones;
+	// thorough: up to 7 on the six hand-written graphs, up to 6 on the generated ones, all against the
+	// model, and length 8 on the first three graphs for the predicate alone
 	buf := make([]byte, 0, maxLen)
-	var rec func(m *mgraph, depth, limit int)
-	rec = func(m *mgraph, depth, limit int) {
-		execOne(o, m, string(buf), fmt.Sprintf("exec.len%d", len(buf)), true)
+	var rec func(m *mgraph, depth, limit int, differential bool)
+	rec = func(m *mgraph, depth, limit int, differential bool) {
+		if differential || depth == limit {
+			execOne(o, m, string(buf), fmt.Sprintf("exec.len%d", len(buf)), differential)
+		}
 		if depth == limit {
 			return
 		}
 		for _, c := range alpha {
 			buf = append(buf, c)
-			rec(m, depth+1, limit)
+			rec(m, depth+1, limit, differential)
 			buf = buf[:len(buf)-1]
 		}
 	}
 	for i, m := range gs {
-		limit := maxLen
-		if !o.Thorough() && i >= 6 {
-			limit = maxLen - 1
+		limit := 6
+		if o.Thorough() {
+			limit = 7
+		}
+		if i >= 6 {
+			limit--
 		}
 		buf = buf[:0]
-		rec(m, 0, limit)
+		rec(m, 0, limit, true)
+		if o.Thorough() && i < 3 {
+			rec(m, 0, 8, false)
+		}
 	}
 	// longer structured lines (differential)
 	words := []string{"a", "b", "c", "ab", "ba", "\"a b\"", "\"a\\\"b\"", "\"", "\\", "a\\", "\"ab", "  ", "\t", "abc", "\"\"", "\"\\\\\""}
@@ -426,7 +431,7 @@ func execCases(o *hx.Out) {
 // ------------------------------------------------------------------ JSON dispatch of chat.Message
 
 func jsonCases(o *hx.Out) {
-	alpha := []byte{' ', '\t', '\n', '"', '{', '[', 'a', '1', '}', ']'}
+	alpha := []byte{' ', '\t', '\n', '"', '{', '[', 'a', ':', '}', ']'}
 	maxLen := 4
 	if o.Thorough() {
 		maxLen = 5
@@ -519,13 +524,19 @@ func positions(r *hx.Rng, n, max int) []int {
 // reads before it allocates, otherwise what a frame could carry (DESIGN C08 Partial: a valid but
 // huge positive length is bounded by the enclosing frame; its allocation is not part of the claim).
 func mutations(r *hx.Rng, valid []byte, huge int32, maxPos int, f func(kind string, b []byte)) {
+	mutationsOpt(r, valid, huge, maxPos, false, f)
+}
+
+// noFixed: no overwriting with fixed-width patterns and no bit clearing (for 64-bit length prefixes,
+// where a pattern in the low half declares 2^31 elements and the allocation kills the process)
+func mutationsOpt(r *hx.Rng, valid []byte, huge int32, maxPos int, noFixed bool, f func(kind string, b []byte)) {
 	f("valid", valid)
 	n := len(valid)
 	for _, p := range positions(r, n, maxPos) {
 		f("trunc", valid[:p])
 	}
 	for k, p := range positions(r, n, maxPos) {
-		if v, w, ok := parseVarint(valid, p); ok {
+		if v, w, ok := parseVarint(valid, p); ok && !noFixed {
 			remaining := int32(n - p - w)
 			hg := huge
 			if k >= 1 && hg > 1<<14 && hg < 1<<31-1 {
@@ -538,6 +549,9 @@ func mutations(r *hx.Rng, valid []byte, huge int32, maxPos int, f func(kind stri
 				m := append(append(append([]byte{}, valid[:p]...), varint(h)...), valid[p+w:]...)
 				f("varint", m)
 			}
+		}
+		if noFixed {
+			continue
 		}
 		for _, pat := range [][]byte{{0xff, 0xff, 0xff, 0xff}, {0x80, 0, 0, 0}, {0, 0x01, 0, 0}, {0, 0, 0, 0}, {0xff, 0xff}, {0x80, 0}, {0x7f, 0xff}, {0, 0}, {0xff}, {0}} {
 			if huge != 1<<31-1 && len(pat) < 4 && (pat[0] == 0x7f || pat[0] == 0xff) {
@@ -558,7 +572,7 @@ func mutations(r *hx.Rng, valid []byte, huge int32, maxPos int, f func(kind stri
 			f("fixed", m)
 		}
 	}
-	for i := 0; i < maxPos; i++ {
+	for i := 0; i < maxPos && !noFixed; i++ {
 		m := append([]byte{}, valid...)
 		for k := 1 + r.Intn(3); k > 0 && n > 0; k-- {
 			i, v := r.Intn(n), byte(r.Next())
@@ -582,6 +596,7 @@ func declaresHuge(b []byte, lo, hi int) bool {
 }
 
 type hostile struct {
+	noFixed  bool
 	fixedLen bool // has big-endian length fields that are allocated up front: no random bytes
 	name     string
 	valid    [][]byte
@@ -600,7 +615,7 @@ func runHostile(o *hx.Out, h hostile) {
 		}
 	}
 	for _, v := range h.valid {
-		mutations(o.R, v, h.huge, h.maxPos, one)
+		mutationsOpt(o.R, v, h.huge, h.maxPos, h.noFixed, one)
 	}
 	rnd := func(n int) []byte {
 		if h.huge != 1<<31-1 {
@@ -687,7 +702,8 @@ func fields(o *hx.Out) []hostile {
 	var hs []hostile
 	add := func(name string, huge int32, valid []byte, mk func() pk.FieldDecoder) {
 		hs = append(hs, hostile{name: "field." + name, huge: huge, maxPos: 64, valid: [][]byte{valid},
-			fixedLen: name == "ary.int" || name == "ary.long",
+			fixedLen: name == "ary.int" || strings.HasPrefix(name, "ary.long") || strings.HasPrefix(name, "ary.varlong"),
+			noFixed:  strings.HasPrefix(name, "ary.long") || strings.HasPrefix(name, "ary.varlong"),
 			run: func(b []byte) error {
 				_, e1 := mk().ReadFrom(reader(b))
 				_, e2 := mk().ReadFrom(plain{reader(b)})
@@ -723,6 +739,11 @@ func fields(o *hx.Out) []hostile {
 	add("ary.ushort", big, enc(pk.Ary[pk.UnsignedShort]{Ary: ints}), func() pk.FieldDecoder { var v []pk.Int; return pk.Ary[pk.UnsignedShort]{Ary: &v} })
 	add("ary.int", frameCap, enc(pk.Ary[pk.Int]{Ary: ints}), func() pk.FieldDecoder { var v []pk.Int; return pk.Ary[pk.Int]{Ary: &v} })
 	add("ary.long", frameCap, enc(pk.Ary[pk.Long]{Ary: ints}), func() pk.FieldDecoder { var v []pk.Int; return pk.Ary[pk.Long]{Ary: &v} })
+	for i, l := range []int64{-1, -1 << 63, 0, 2, 4, 1 << 14} {
+		body := enc(pk.Int(1), pk.Int(2), pk.Int(3))
+		add(fmt.Sprintf("ary.long.len%d", i), frameCap, append(enc(pk.Long(l)), body...), func() pk.FieldDecoder { var v []pk.Int; return pk.Ary[pk.Long]{Ary: &v} })
+		add(fmt.Sprintf("ary.varlong.len%d", i), frameCap, append(enc(pk.VarLong(l)), body...), func() pk.FieldDecoder { var v []pk.Int; return pk.Ary[pk.VarLong]{Ary: &v} })
+	}
 	add("ary.varint", frameCap, enc(pk.Ary[pk.VarInt]{Ary: ints}), func() pk.FieldDecoder { var v []pk.Int; return pk.Ary[pk.VarInt]{Ary: &v} })
 	add("ary.varlong", frameCap, enc(pk.Ary[pk.VarLong]{Ary: ints}), func() pk.FieldDecoder { var v []pk.Int; return pk.Ary[pk.VarLong]{Ary: &v} })
 	nested := []pk.ByteArray{pk.ByteArray("ab"), pk.ByteArray(""), pk.ByteArray("xyz")}
@@ -796,11 +817,13 @@ func chatDecoders(o *hx.Out) []hostile {
 	nbtValid := [][]byte{enc(msg), enc(chat.Text("plain")), enc(pk.NBT("just a string")), enc(pk.NBT([]chat.Message{{Text: "l"}}))}
 	js := chat.JsonMessage(msg)
 	jsonValid := [][]byte{enc(js), enc(pk.String(`"s"`)), enc(pk.String(`[{"text":"a"},"b"]`)), enc(pk.String(`{"translate":"k","with":["x",{"text":"y"}]}`))}
-	deep := strings.Repeat(`{"extra":[`, 3000) + `"x"` + strings.Repeat(`]}`, 3000)
+	deep := strings.Repeat(`{"extra":[`, 1500) + `"x"` + strings.Repeat(`]}`, 1500)
 	return []hostile{
 		{fixedLen: true, name: "chat.nbt", huge: frameCap, maxPos: 120, valid: nbtValid,
 			run: func(b []byte) error { var m chat.Message; _, err := m.ReadFrom(reader(b)); return err }},
-		{name: "chat.json", huge: frameCap, maxPos: 120, valid: append(jsonValid, enc(pk.String(deep))),
+		{name: "chat.json", huge: frameCap, maxPos: 120, valid: jsonValid,
+			run: func(b []byte) error { var m chat.JsonMessage; _, err := m.ReadFrom(reader(b)); return err }},
+		{name: "chat.json.deep", huge: frameCap, maxPos: 3, valid: [][]byte{enc(pk.String(deep))},
 			run: func(b []byte) error { var m chat.JsonMessage; _, err := m.ReadFrom(reader(b)); return err }},
 		{name: "chat.json.raw", huge: frameCap, maxPos: 100, valid: [][]byte{jsonValid[0][2:], []byte(`"s"`), []byte(` [ ] `)},
 			run: func(b []byte) error { var m chat.Message; return m.UnmarshalJSON(b) }},
@@ -905,10 +928,6 @@ func levelDecoders(o *hx.Out) []hostile {
 		run: func(b []byte) error {
 			var err error
 			for _, c := range states {
-				var cp level.PaletteContainer[level.BlocksState]
-				if _, e := cp.ReadFrom(reader(enc(c))); e != nil {
-					_ = e
-				}
 				c2 := level.NewStatesPaletteContainer(16*16*16, 5)
 				c2.ReadFrom(reader(enc(c)))
 				_, e := c2.ReadFrom(reader(b))
@@ -1084,11 +1103,6 @@ func main() {
 	debug.SetMemoryLimit(8 << 30)
 	o := hx.Open()
 	defer o.Close()
-	if pf := os.Getenv("C08_PROF"); pf != "" {
-		f, _ := os.Create(pf)
-		pprof.StartCPUProfile(f)
-		defer pprof.StopCPUProfile()
-	}
 	watchdog(o, 30*time.Second)
 	t0 := time.Now()
 	lap := func(what string) {
@@ -1097,9 +1111,7 @@ func main() {
 		}
 		t0 = time.Now()
 	}
-	if os.Getenv("C08_SKIP_EXEC") == "" {
-		execCases(o)
-	}
+	execCases(o)
 	lap("exec")
 	jsonCases(o)
 	lap("json")
@@ -1107,9 +1119,6 @@ func main() {
 	lap("tags")
 	skeletonCases(o)
 	lap("skeleton")
-	if os.Getenv("C08_ONLY") == "tags" {
-		return
-	}
 	var hs []hostile
 	hs = append(hs, frames(o)...)
 	hs = append(hs, fields(o)...)
